@@ -98,6 +98,9 @@ class Folder:
             return res
         if isinstance(e, ast.Call):
             fn = unparse(e.func)
+            if fn.split(".")[-1] == "LazyObject" and e.args and isinstance(e.args[0], ast.Lambda) and not e.args[0].args.args:
+                # LazyObject(lambda: <table>, globals(), "NAME"): the table, built on first use
+                return f(e.args[0].body, loc)
             if fn in ("chr", "ord", "range", "len", "str") and not e.keywords:
                 args = [f(a, loc) for a in e.args]
                 if fn == "range":
